@@ -44,9 +44,6 @@ import PyYetiVerif.Props.C11e
 #print axioms PyYetiVerif.C11.named_subset_is_filter_ascii
 #print axioms PyYetiVerif.C11.dir_matches_load_ascii_written
 #print axioms PyYetiVerif.C11.rdRecord_form_consistent
-#print axioms PyYetiVerif.C11.rdRecord_form_consistent_partial
-#print axioms PyYetiVerif.C11.smallItems_trivial
-#print axioms PyYetiVerif.C11.uint64_struct_path_counterexample
 #print axioms PyYetiVerif.C11.rdRecord_N_irrelevant
 #print axioms PyYetiVerif.C11.op2_tabheaders_any_pieces
 #print axioms PyYetiVerif.C11.op2_tabheader_prefix
